@@ -35,7 +35,8 @@ RULE += (' ' +
          'secret_bits - 256 draws of the secret generator, every bit '
          'position takes both values. Round 15: every other encrypted '
          'login has a late outgoing listener raising IgnorePacket for '
-         'every packet. ')
+         'every packet. Round 16: 1024- and 2048-bit server keys with '
+         'public exponents 3, 17, 257 and 65539. ')
 LEVEL_TEXT = ('Differential testing of the cipher wrappers and the RSA '
               'envelope against independent implementations over generated '
               'secrets, streams, call partitions and interleavings.')
